@@ -367,13 +367,22 @@ func init() {
 			for _, st := range []uint64{0, 1700000000000000000} {
 				cnt := 0
 				var first data.Point
-				err := data.DecodeSerialHrPayload(hr(n, st), func(p data.Point) {
-					if cnt == 0 {
-						first = p
-					}
-					cnt++
-				})
+				var err error
+				var pan any
+				func() {
+					defer func() { pan = recover() }()
+					err = data.DecodeSerialHrPayload(hr(n, st), func(p data.Point) {
+						if cnt == 0 {
+							first = p
+						}
+						cnt++
+					})
+				}()
 				evals++
+				if pan != nil {
+					res.fail(Failure{Finding: "hr-payload", What: fmt.Sprintf("DecodeSerialHrPayload panicked: %v", pan), Case: map[string]any{"len": n, "start": st}})
+					continue
+				}
 				wantErr := n < 48
 				wantCnt := 0
 				if n >= 48 {
